@@ -26,4 +26,18 @@ theorem eqIgnoreAsciiCase_length {a b : Bytes} (h : eqIgnoreAsciiCase a b = true
   have := congrArg List.length ((eqIgnoreAsciiCase_iff_map a b).1 h)
   simpa using this
 
+theorem inj_of_nodup_map {α β : Type} (f : α → β) (l : List α) (h : (l.map f).Nodup) :
+    ∀ a ∈ l, ∀ b ∈ l, f a = f b → a = b := by
+  induction l with
+  | nil => intro a ha; simp at ha
+  | cons x xs ih =>
+    simp only [List.map_cons, List.nodup_cons, List.mem_map, not_exists, not_and] at h
+    intro a ha b hb hab
+    simp only [List.mem_cons] at ha hb
+    rcases ha with rfl | ha <;> rcases hb with rfl | hb
+    · rfl
+    · exact absurd hab.symm (h.1 b hb)
+    · exact absurd hab (h.1 a ha)
+    · exact ih h.2 a ha b hb hab
+
 end Strum
